@@ -310,6 +310,26 @@ def rule_r2(prog, rep, units, rid='R2'):
                 asz = _fresh_size(prog, rd, n.id, rhs)
                 if asz is None:
                     continue
+                # does the record have the paired size field at all?
+                recs = [x['_field'][0] for x in walk(f.body) if x.get('kind') == 'MemberExpr' and x.get('name') == fld
+                        and x.get('_field') and access_path(children(x)[0]) == b]
+                has_size_field = False
+                if recs:
+                    for u in prog.units:
+                        fl = u.record_fields.get(recs[0])
+                        if fl:
+                            has_size_field = any(ff['name'] in SIZE_FIELD[fld] for ff in fl)
+                            break
+                sized = [st for st in stores if st[0] == b and st[1] in SIZE_FIELD[fld]]
+                struct_copy = any(x.get('kind') == 'BinaryOperator' and x.get('opcode') == '=' and
+                                  canon(children(x)[0]) in (b, '(*%s)' % b) and not qtype(strip_parens(children(x)[0])).rstrip().endswith('*')
+                                  for x in walk(f.body))
+                if has_size_field and not sized and not struct_copy:
+                    rep.instance(rid)
+                    rep.oblige(rid, False, {'function': f.name, 'copy': '%s->%s (%s bytes)' % (b, fld, asz), 'recorded': None})
+                    rep.violation(rid, f, line, '%s->%s:size-missing' % (b, fld),
+                                  'a fresh copy of %s bytes is stored in %s->%s but the paired size field is never updated in %s: the '
+                                  'element keeps the previous length' % (asz, b, fld, f.name))
                 for (b2, fld2, rhs2, n2, line2) in stores:
                     if b2 == b and fld2 in SIZE_FIELD[fld]:
                         rep.instance(rid)
